@@ -38,6 +38,7 @@ type Program struct {
 	ifaceIDs  map[int]types.Type
 	fieldInvs map[string]*Clause // "T.f" -> invariant over v (trusted data-structure invariant)
 	elemInvs  map[string]*Clause // "[]T" -> invariant over v
+	typeInvs  map[string]*Clause // named type -> invariant over every value of that type read from the heap
 	appendLemmas map[string][]string // element type -> lemmas instantiated at every append
 	usedLemmas map[string]bool
 	comparable map[string]bool // interface types whose dynamic types are assumed comparable
@@ -49,7 +50,7 @@ func loadProgram(repo string, overlayContract string, force bool) (*Program, err
 	cpath := filepath.Join(repo, "pkg/ggql/verif_contracts.go")
 	p := &Program{repo: repo, contracts: map[string]*Contract{}, specs: map[string]*SpecFn{}, lemmas: map[string]*Lemma{},
 		ifaceCons: map[string]*Contract{}, pures: map[string]bool{}, funcs: map[string]*ssa.Function{},
-		tags: map[string]int{}, comparable: map[string]bool{}, appendLemmas: map[string][]string{}, usedLemmas: map[string]bool{}, fieldInvs: map[string]*Clause{}, elemInvs: map[string]*Clause{}, strLits: map[string]string{}, srcLines: map[string][]string{}, impls: map[string][]*ssa.Function{}}
+		tags: map[string]int{}, comparable: map[string]bool{}, appendLemmas: map[string][]string{}, usedLemmas: map[string]bool{}, fieldInvs: map[string]*Clause{}, elemInvs: map[string]*Clause{}, typeInvs: map[string]*Clause{}, strLits: map[string]string{}, srcLines: map[string][]string{}, impls: map[string][]*ssa.Function{}}
 	p.contractSource = cpath
 	if _, err := os.Stat(cpath); err != nil || force {
 		if overlayContract == "" {
